@@ -15,6 +15,8 @@ SPEC = {
         {"name": "silmerge", "pkg": "./silmerge", "search_cases": 20000},
         # "a silence created or expired through any instance's API is eventually effective on every connected instance": effectiveness of merged versions is the mute verdict of C02's engine
         {"name": "silencer", "pkg": "./silencer", "search_cases": 6000, "quick_cases": 1200},
+        # a Merge racing a local Expire of the same id (real goroutines, real time): the newest version wins
+        {"name": "mutesrace", "pkg": "./mutesrace", "search_cases": 60, "timeout_quick": 300, "only": ["merge_monotone"]},
     ],
     "rule": "random op sequences on 2-3 real silence.Silences (+ Silencer) under synctest virtual time: local Set (create / compatible and "
             "incompatible edit, among them every one-component variation of the matcher sets) and Expire whose broadcasts are captured into a pool, scripted channel delivering pool entries "
